@@ -168,6 +168,13 @@ theorem hdfWrite_spec (a : Art) (k : Key) (d : Data) (hfree : ∀ e ∈ a.file, 
       · simp
       · simp only [ensureParent_keys, ensureParent_cache, ensureParent_file, rmTree_file_free a k hfree]
         simp [rmTree]
+    | keyList ks =>
+      dsimp only
+      cases h : hdfWriteJson a k (.keysNode ks) with
+      | none => simp
+      | some a' =>
+        obtain ⟨h1, h2, h3⟩ := hdfWriteJson_some h
+        simp [nodeOf, h1, h2, h3]
   · simp [hw]
 
 /-! ### where bare groups come from -/
@@ -194,7 +201,7 @@ theorem hdfWriteJson_groups {a a' : Art} {p : Key} {n : Node} (h : hdfWriteJson 
     · cases h; exact ensureParent_groups hg
 
 theorem hdfWrite_groups {a : Art} {k : Key} {d : Data} {g : Key} (hg : g ∈ (hdfWrite a k d).1.groups) :
-    g ∈ a.groups ∨ (wellFormed k = true ∧ k.length = 3 ∧ g = k.take 2) ∨ (d.kind = .badFrame ∧ g = k) := by
+    g ∈ a.groups ∨ (wellFormed k = true ∧ k.length = 3 ∧ g = k.take 2) := by
   obtain ⟨kind, id⟩ := d
   unfold hdfWrite at hg
   by_cases hw : wellFormed k = true
@@ -207,7 +214,16 @@ theorem hdfWrite_groups {a : Art} {k : Key} {d : Data} {g : Key} (hg : g ∈ (hd
         simp only [h] at hg
         rcases hdfWriteJson_groups h hg with h | h
         · exact Or.inl h
-        · exact Or.inr (Or.inl ⟨hw, h⟩)
+        · exact Or.inr ⟨hw, h⟩
+    | keyList ks =>
+      dsimp only at hg
+      cases h : hdfWriteJson a k (.keysNode ks) with
+      | none => simp only [h] at hg; exact Or.inl hg
+      | some a' =>
+        simp only [h] at hg
+        rcases hdfWriteJson_groups h hg with h | h
+        · exact Or.inl h
+        · exact Or.inr ⟨hw, h⟩
     | unserJson => exact Or.inl hg
     | zeroRow => exact Or.inl hg
     | table =>
@@ -216,17 +232,14 @@ theorem hdfWrite_groups {a : Art} {k : Key} {d : Data} {g : Key} (hg : g ∈ (hd
       · exact Or.inl hg
       · rcases ensureParent_groups hg with h | h
         · exact Or.inl (List.mem_filter.mp h).1
-        · exact Or.inr (Or.inl ⟨hw, h⟩)
+        · exact Or.inr ⟨hw, h⟩
     | badFrame =>
       simp only [hdfPut] at hg
       split at hg
       · exact Or.inl hg
-      · simp only [List.mem_append, List.mem_singleton] at hg
-        rcases hg with hg | hg
-        · rcases ensureParent_groups hg with h | h
-          · exact Or.inl (List.mem_filter.mp h).1
-          · exact Or.inr (Or.inl ⟨hw, h⟩)
-        · exact Or.inr (Or.inr ⟨rfl, hg⟩)
+      · rcases ensureParent_groups hg with h | h
+        · exact Or.inl (List.mem_filter.mp h).1
+        · exact Or.inr ⟨hw, h⟩
   · simp only [hw, Bool.not_false, if_true] at hg
     exact Or.inl hg
 
@@ -260,6 +273,8 @@ theorem remove_groups {a : Art} {k g : Key} (hg : g ∈ (remove a k).1.groups) :
   unfold remove at hg
   split at hg
   · exact hg
+  split at hg
+  · exact hg
   · simp only [keysRemove] at hg
     generalize hr : keysRewrite { a with keys := a.keys.erase k } = r at hg
     have hsub : ∀ g ∈ r.1.groups, g ∈ a.groups := by
@@ -277,8 +292,7 @@ theorem remove_groups {a : Art} {k g : Key} (hg : g ∈ (remove a k).1.groups) :
         exact hsub g h3
 
 theorem write_groups {a : Art} {k : Key} {d : Option Data} {g : Key} (hg : g ∈ (write a k d).1.groups) :
-    g ∈ a.groups ∨ (wellFormed k = true ∧ k.length = 3 ∧ g = k.take 2) ∨
-      (∃ dd, d = some dd ∧ dd.kind = .badFrame ∧ g = k) := by
+    g ∈ a.groups ∨ (wellFormed k = true ∧ k.length = 3 ∧ g = k.take 2) := by
   unfold write at hg
   split at hg
   · exact Or.inl hg
@@ -289,15 +303,8 @@ theorem write_groups {a : Art} {k : Key} {d : Option Data} {g : Key} (hg : g ∈
       have hw := @hdfWrite_groups a k d
       generalize hdfWrite a k d = r at hg hw
       obtain ⟨a1, b⟩ := r
-      have fin : ∀ g ∈ a1.groups, g ∈ a.groups ∨ (wellFormed k = true ∧ k.length = 3 ∧ g = k.take 2) ∨
-          (∃ dd, some d = some dd ∧ dd.kind = .badFrame ∧ g = k) := by
-        intro g hg
-        rcases hw hg with h | h | h
-        · exact Or.inl h
-        · exact Or.inr (Or.inl h)
-        · exact Or.inr (Or.inr ⟨d, rfl, h⟩)
       cases b with
-      | false => exact fin g hg
+      | false => exact hw hg
       | true =>
         dsimp only at hg
         simp only [keysAppend] at hg
@@ -305,7 +312,7 @@ theorem write_groups {a : Art} {k : Key} {d : Option Data} {g : Key} (hg : g ∈
         have hsub : ∀ g ∈ r2.1.groups, g ∈ a1.groups := by
           intro g hg; rw [← hr] at hg; exact keysRewrite_groups (a := { a1 with keys := a1.keys ++ [k] }) hg
         obtain ⟨a2, b2⟩ := r2
-        cases b2 <;> exact fin g (hsub g hg)
+        cases b2 <;> exact hw (hsub g hg)
 
 theorem openArtifact_groups {a a' : Art} (h : openArtifact a = some a') {g : Key} (hg : g ∈ a'.groups) :
     g ∈ a.groups := by
